@@ -35,7 +35,8 @@ def write_cases(ck, cases, name):
             "declarative E5/E37 grammar and terminates; the real hsms.Parse is then bound to that grammar by running the same scope "
             "(exhaustively) and seeded corruptions of random encodings through it and letting TLC check every recorded verdict, decoded "
             "message and re-encoding against the grammar. The property is a set equality over all byte strings, which only an independent "
-            "grammar can state.",
+            "grammar can state."
+            " Real items at every length-byte boundary and very long lists of empty items, honestly declared, are co-validated as run-length summaries.",
        note="exhaustive only inside the scope (16-byte alphabet, text <= 4/5 bytes; 168 header variants); beyond it seeded traces; TLC, the JSON module and the harness projection are trusted")
 def c03(ck):
     ck.rule.append("model: every text of length <= N over 16 control-flow-relevant bytes behind a good header and "
@@ -102,7 +103,8 @@ def _codec_common(ck, props, label_rule):
        text="TLC checks the round trip on the model for every message of a bounded scope (including the complete stream/function/W-bit and "
             "session-id spaces); the same messages are built with the real factories (TLC -> Go), and seeded random messages built six ways are "
             "encoded, decoded and re-encoded by the real code (Go -> TLC); TLC compares the representation-level projection of the decoded "
-            "message with the original and the bytes with the specification's.",
+            "message with the original and the bytes with the specification's."
+            " Real items of every format at every length-byte boundary (alone, behind each other, very many small ones behind a sibling) are decoded from a receive buffer that is overwritten afterwards (run-length summaries).",
        note="scope bounds as in MCRoundTrip.cfg; random trees to depth 5; items above 4095 elements are covered by the run-length 'big' driver (C13)")
 def c01(ck):
     _codec_common(ck, ["InvC01"],
@@ -157,7 +159,8 @@ def c02_values(ck):
             "stride 61 plus every breakpoint +-3) and the harness sweeps the real, unexported header routine over the same sizes, reporting the "
             "maximal intervals on which its class is constant; TLC checks each interval (thorough: every point of it) and sampled header bytes "
             "against the specification. Real items are then built at 0,1,2, 255|256, 65535|65536 and max|max+1 elements for every format, encoded, "
-            "decoded and re-encoded; TLC checks constructibility, header, payload runs, the length the decoder read (hook) and the decoded values.",
+            "decoded and re-encoded; TLC checks constructibility, header, payload runs, the length the decoder read (hook) and the decoded values."
+            " The limit is also approached through fills (ASCII variables with every bound form, alone, in a list, in a message; in the thorough tier a nested list grown by an ellipsis).",
        note="quick tier thins the sweep (windows of +-40 sizes around every breakpoint, stride 257 between); lists of 16.7 M children are decoded "
             "in the thorough tier only; payloads are compared as run-length summaries computed by the harness")
 def c13(ck):
@@ -208,7 +211,8 @@ def c07(ck):
             "request/response pairing; TLC checks it against the decoder grammar for all 65,536 pairs. 6,144 constructor-call cases enumerated by TLC "
             "are executed with the real constructors; the real Type() is swept over all pairs and every constructor over all 65,536 session ids "
             "(as intervals), response constructors are called with every kind of request, and random headers are built, encoded and decoded; TLC "
-            "judges every recorded result.",
+            "judges every recorded result."
+            " All 256 status/reason codes at five session ids are built and decoded back; pairs of different headers with equal 32-bit checksums are decoded one after the other.",
        note="a control message with SType 0 cannot be produced through the typed constructors; its Type() ('undefined' today) is a declared freedom")
 def c14(ck):
     ck.rule.append("replay: 3 PTypes x 256 codes x 4 session ids x 2 system-byte words through all 8 constructors; sweeps: Type() on all 65,536 "
@@ -271,7 +275,8 @@ def c16(ck):
        text="Items.tla defines substitution and its refusal condition; for random ellipsis-free templates, random assignments (with unmentioned "
             "variables, unknown keys and out-of-domain values) and random ordered partitions into up to four successive fills, TLC checks that "
             "filling once, filling in steps and constructing directly give the same projection, printed form, bytes, variable list and size, "
-            "equal to Subst, and that refusals coincide with the specification's domain rule.",
+            "equal to Subst, and that refusals coincide with the specification's domain rule."
+            " Fills through an ellipsis (counts and values in one call and in two) are judged against Subst(Ellipsis!Spec(t, counts), values), renames against the rule that names stay distinct.",
        note=ITEMS_NOTE)
 def c09(ck):
     ck.rule.append("random templates to depth 4 x random assignments x random splits into 1..4 fills; about one case in five carries an "
@@ -454,7 +459,8 @@ def c04(ck):
        text="SmlParser.tla states, with its own arithmetic, what every literal denotes for every item type (bases 2/8/10/16 in either case, signs, ranges "
             "of all widths, character codes, quoted strings as the characters between the quotes, T/F) and when it is an error. Every one of ~360 "
             "boundary literals is placed alone, first and second in an item of each of the 13 non-list types (plus random texts); TLC checks that the "
-            "real parser reports an error iff the specification does and otherwise returns exactly the denoted values in items of the written types.",
+            "real parser reports an error iff the specification does and otherwise returns exactly the denoted values in items of the written types."
+            " Every sequence of up to 2/3 words of a 38-word vocabulary in item position, every Unicode code point in five literal contexts (interval summaries), and 23 literals in neighbouring items of different types are judged against the same model.",
        note=SML_NOTE + "; declared freedoms: a leading-zero integer (010) is read as octal by integers and decimal by floats; +5 is refused for unsigned items - both as the code does today, the drivers include them and the specification follows the code")
 def c05(ck):
     ck.rule.append("13 types x about 360 literals (every range boundary of every width and its neighbours in bases 2, 8, 10, 16 and the 0-prefixed octal form, both signs; floats; strings; codes; T/F; variables) x 3 positions x random letter case, plus random plausible texts; non-trivial = every event; distinct by text")
@@ -481,7 +487,8 @@ def c05(ck):
             "plausible texts and, in an isolated worker under RLIMIT_AS, on hostile inputs (absurd sizes, duplicated huge ASCII variables, exotic white "
             "space, invalid UTF-8, 64 KiB tokens, deep nesting); TLC checks: returned normally, all-or-nothing, every diagnostic positioned inside the "
             "input, and - when nothing is reported - exactly the specification's messages in order. Lexer hook streams (tokens and state steps) are "
-            "validated against the machine step by step.",
+            "validated against the machine step by step."
+            " Every sequence of up to 2/3 words of a 38-word vocabulary in five contexts is run through the real parser and judged against the model (co-enumeration).",
        note=SML_NOTE + "; running time is not judged (watchdog overrun = exit 2)")
 def c06(ck):
     ck.rule.append("model: inputs <= 3 (quick) / 4 symbols over 26 classes x 2 start states; traces: token soups and plausible texts, lexer hook "
@@ -515,7 +522,8 @@ def c06(ck):
             "dropped). TLC checks on the model that every assignment of separators/comments to the gaps of every token list in scope leaves the "
             "token shape and the parse unchanged. The real parser is run on a plain and a re-laid-out rendering (random blanks, tabs, LF, CRLF, "
             "comments in several scripts and with hostile trailing bytes, case flips of keywords, type names, number prefixes) of seeded token lists, "
-            "valid and damaged; TLC checks identical messages and that each diagnostic keeps its text and sits at the same token in both.",
+            "valid and damaged; TLC checks identical messages and that each diagnostic keeps its text and sits at the same token in both."
+            " A systematic sweep gives every single gap of fixed and seeded token lists every separator (including two- and three-byte blanks and comments glued to names ending in each printable character) and every case-insensitive token both letter cases.",
        note=SML_NOTE)
 def c08(ck):
     ck.rule.append("model: token lists <= 2 (quick) / 3 words from a 20-word vocabulary x 6 separators per gap; traces: seeded token lists "
@@ -571,7 +579,8 @@ def c19(ck):
             "checks that no reachable configuration has conflicting footprints and enumerates all 1,792 configurations (which of 10 operations overlap on "
             "which of 3 shared objects, up to 3 goroutines). Every configuration is executed for real - goroutines released from a barrier, several "
             "rounds, fresh variable names in every call so that no cache is warm - in a race-detector build; a race report aborts the worker. The "
-            "same calls are then executed alone and TLC checks that every concurrent result equals the solo result.",
+            "same calls are then executed alone and TLC checks that every concurrent result equals the solo result."
+            " Reference answers come from an untouched twin of the shared objects, which are asked again afterwards; one configuration per multiset of operations also runs as the very first library calls of a fresh process; eight goroutines hammer small objects that hold one wide list at three depths in tight loops.",
        note="the Go race detector (happens-before based: one execution of a configuration exposes a race for every schedule of it, because the library "
             "has no synchronisation that could order the accesses) and the worker's exit status are instruments; the footprints are the model's "
             "assumption about the code, checked by the detector")
